@@ -1,14 +1,16 @@
 #!/bin/sh
-# tools/mutant_test.sh <patch.diff> <prop> [prop...]  -- apply to /repo, run quick checks, always undo.
-# prints one line per property: CAUGHT / MISSED / HARNESS
-P="$1"; shift
-cd /repo || exit 2
-if [ -n "$(git status --porcelain)" ]; then echo "repo not clean"; exit 2; fi
-git apply "$P" || { echo "patch does not apply"; exit 2; }
-trap 'git -C /repo checkout -- . ; git -C /repo clean -fdq src' EXIT
+# tools/mutant_test.sh <patch.diff> <prop> [prop...]
+# Applies the patch to a scratch worktree of /repo (never to /repo itself), points the checks at it through
+# SIMRF_REPO_SRC, runs the quick (or $TIER) checks and removes the worktree.  One line per property:
+# CAUGHT / MISSED / HARNESS
+P="$(readlink -f "$1")"; shift
+WT=/tmp/mt.$$
+git -C /repo worktree add -q --detach $WT HEAD || exit 2
+trap 'git -C /repo worktree remove --force $WT; git -C /repo worktree prune' EXIT
+git -C $WT apply "$P" || { echo "patch does not apply"; exit 2; }
 cd /verif
 for prop in "$@"; do
-  out=$(timeout 1200 ./check "$prop" --tier "${TIER:-quick}" 2>&1); rc=$?
+  out=$(SIMRF_REPO_SRC=$WT/src SIMRF_NO_EVIDENCE=1 timeout 1200 ./check "$prop" --tier "${TIER:-quick}" 2>&1); rc=$?
   sigs=$(echo "$out" | grep -o "signature=[^ ]*" | sort -u | tr '\n' ' ')
   case $rc in
     0) echo "MISSED  $prop ($(echo "$out" | tail -1 | cut -c1-160))";;
